@@ -41,6 +41,7 @@ import { parseMultiPaths, parseSinglePath, type DataPath } from './data_path'
 import {
   DataGroup,
   getDeepCopyStrategy,
+  type DataChange,
   type DataGroupObserverTree,
   type DataValue,
   type DeepCopyStrategy,
@@ -856,6 +857,12 @@ export class Component<
 
     // init template with init data
     if (propEarlyInit && initPropValues !== undefined) initPropValues(comp)
+    // (a child may write to this component's data while the template is being created,
+    // e.g. through a model binding: the nodes created before that need an update afterwards)
+    let changesWhileCreating: DataChange[] | undefined = []
+    dataGroup.setUpdateListener((_data, combinedChanges) => {
+      changesWhileCreating!.push(...combinedChanges)
+    })
     if (ENV.DEV) {
       performanceMeasureRenderWaterfall('component.render', 'backend.render', comp, () => {
         tmplInst.initValues(dataGroup.innerData || dataGroup.data)
@@ -864,6 +871,10 @@ export class Component<
       tmplInst.initValues(dataGroup.innerData || dataGroup.data)
     }
     comp._$tmplInst = tmplInst
+    if (changesWhileCreating.length > 0) {
+      tmplInst.updateValues(dataGroup.innerData || dataGroup.data, changesWhileCreating)
+    }
+    changesWhileCreating = undefined
     dataGroup.setUpdateListener((data, combinedChanges) => {
       if (ENV.DEV) {
         performanceMeasureRenderWaterfall('component.render', 'backend.render', comp, () => {
